@@ -76,6 +76,12 @@ RULE = ("call cases = (LUT: the 3 built-in files of the tree under test + genera
         "(write/rewrite, register with and without explicit identifier, register of a taken or "
         "built-in identifier, de-register, re-register to another file, calls by path / "
         "identifier / built-in / tuple), each call against the table current at call time. "
+        "Events are handed over as 1-D arrays, strided views, 2-D arrays in C / Fortran / "
+        "transposed / strided layout (result must have the input's shape) and 0-d scalars (law "
+        "'single'); 30 % of the per-event temperature arrays contain missing (nan) readings "
+        "(that event: nan; the others unaffected, checked by oracle and batch laws). Memory "
+        "model: 80/600 scale_* calls (feature x float64/float32/int x inplace x widths x "
+        "scalar/array viscosity) + 8 get_emodulus(copy, px, route) observations. "
         "distinct = distinct (LUT, set-up, viscosity source, events) cases with at least one "
         "finite result and a non-identity scaling or pixelation correction.")
 TRUSTED_BASE = [
@@ -86,7 +92,11 @@ TRUSTED_BASE = [
     "pixelation and viscosity formulas (evaluated by the harness in floats, passed as exact "
     "rationals), np.loadtxt/json parsing of LUT files",
     "the harness repeats the documented float operations (scale, then divide by the maximum) to "
-    "hand qhull the same input as the implementation"]
+    "hand qhull the same input as the implementation",
+    "memory model (Model/EmodMem.lean): numpy's object semantics are modelled, not verified - "
+    "np.array(a, copy=True) = new object, copy=False on a float64 array = the same object, "
+    "`*=` on an integer array raises; the statement list emodProg is hand-written from "
+    "get_emodulus (tied by fingerprints around every call and the copy=True/False observation)"]
 ASSUMPTIONS = ["channel widths > 0, LUT flow rate / viscosity non-zero, LUT maxima > 0 (Pos)",
                "copy=True (default) and extrapolate=False (default); the spline extrapolation "
                "option is excluded from the property"]
@@ -99,8 +109,16 @@ NOT_PROVED = ["that dclab keeps no state between calls beyond files and EXTERNAL
               "(correspondence with an independent re-implementation only)",
               "load_lut/load_mtext/register_lut parsing (correspondence with an independent "
               "parser only)",
-              "absence of mutation of caller arrays / EXTERNAL_LUTS (fingerprints; the model's "
-              "history_independent covers the functional structure only)"]
+              "absence of mutation of EXTERNAL_LUTS and LUT files (fingerprints). Caller ARRAYS: "
+              "proved in the heap model (scale_feature_copy_keeps_caller, "
+              "get_emodulus_copy_keeps_caller); that emodProg lists every in-place statement of "
+              "get_emodulus is correspondence-only (fingerprints)",
+              "load_mtext text format as a Lean parser with round-trip theorems (session-4 target "
+              "B1: not done)",
+              "'T covers the convex hull': a checked covering certificate would need a planar "
+              "topology theorem (every point inside all hull half-planes lies in a triangle of an "
+              "edge-paired triangulation) - infeasible in this budget; half-planes of the hull are "
+              "already checked per NaN answer by sepLine/allOnSide"]
 
 RTOL = 1e-9
 ATOL = 1e-12
@@ -426,7 +444,18 @@ def gen_temperatures(rng, n, lo, hi, kind=None):
         amp = rng.choice([0.0, 10.0 ** rng.uniform(-6, -1)])
         t = [base + amp * rng.uniform(-1, 1) for _ in range(n)]
         t[rng.randrange(n)] = base + rng.choice([-1, 1]) * rng.uniform(3, 9)
-    return [float(min(max(v, 1.0), 60.0)) for v in t]
+    t = [float(min(max(v, 1.0), 60.0)) for v in t]
+    if n > 1 and rng.random() < 0.3:
+        # missing readings (the sensor is read out asynchronously): nan for some, never all,
+        # events.  The viscosity - hence E - of such an event is undefined (nan); the others
+        # must not notice
+        for i in rng.sample(range(n), rng.randint(1, max(1, min(n - 1, n // 4)))):
+            t[i] = float("nan")
+    return t
+
+
+def finite_temps(temp):
+    return [v for v in temp if math.isfinite(v)]
 
 
 def gen_events(rng, lut, L, px, n):
@@ -510,6 +539,48 @@ def gen_events(rng, lut, L, px, n):
     return xs, ds, cats
 
 
+# the container of the events: get_emodulus takes "float or ndarray" - any shape, any memory
+# layout (views of larger arrays, Fortran order, transposed); the result has the shape of the
+# input and the value of an event does not depend on where it sits in memory
+EV_LAYOUTS = ["1d", "1d", "1d", "1d", "1d_strided", "2d_C", "2d_F", "2d_T", "2d_strided"]
+
+
+def ev_shape(n, layout):
+    if not layout.startswith("2d") or n < 2:
+        return (n,)
+    r = max(k for k in range(1, int(math.isqrt(n)) + 1) if n % k == 0)
+    return (r, n // r)
+
+
+def shape_events(vals, layout):
+    """(array holding `vals` in logical (C index) order in the given container, base array of
+    which it is a view or None)"""
+    a = np.array(vals, dtype=float)
+    n = len(a)
+    if layout == "0d" and n == 1:
+        return np.array(a[0]), None
+    if layout == "1d_strided":
+        base = np.full(2 * n + 1, 7.5)
+        v = base[1::2][:n]
+        v[...] = a
+        return v, base
+    shp = ev_shape(n, layout)
+    if len(shp) == 1:
+        return a, None
+    a2 = a.reshape(shp)
+    if layout == "2d_F":
+        return np.asfortranarray(a2), None
+    if layout == "2d_T":
+        base = np.ascontiguousarray(a2.T)
+        return base.T, base
+    if layout == "2d_strided":
+        base = np.full((2 * shp[0] + 1, 2 * shp[1] + 2), 7.5)
+        v = base[1::2, 1::2][:shp[0], :shp[1]]
+        v[...] = a2
+        return v, base
+    return a2, None
+
+
 def gen_case(rng, lut, n_ev, mode=None):
     if mode is None:
         mode = "ident" if lut.spec["kind"] == "builtin" else \
@@ -522,6 +593,10 @@ def gen_case(rng, lut, n_ev, mode=None):
         lut = lut.variant(extra["dtype"])
     L, Q, px = gen_setup(rng, lut)
     n = max(3, n_ev + rng.randint(-n_ev // 3, n_ev // 3))
+    ev_layout = rng.choice(EV_LAYOUTS)
+    while ev_layout.startswith("2d") and ev_shape(n, ev_layout)[0] < 2:
+        n += 1                      # a prime number of events has no 2D arrangement
+    extra["ev_layout"] = ev_layout
     medium, model, temp = gen_visc(rng, n)
     xs, ds, cats = gen_events(rng, lut, L, px, n)
     case = {"lut": lut.spec, "mode": mode, "L": L, "Q": Q, "px": px, "medium": medium,
@@ -605,7 +680,7 @@ def fp(a):
 
 
 def call_impl(lut, case, xs=None, ds=None, temp="case", medium="case", model="case",
-              L=None, Q=None, px=None, mutations=None):
+              L=None, Q=None, px=None, mutations=None, ev_layout=None):
     """one call of the real get_emodulus; returns ndarray or 'err:…'.  `mutations` (a list)
     receives descriptions of inputs that were modified by the call."""
     common.import_dclab()
@@ -616,15 +691,23 @@ def call_impl(lut, case, xs=None, ds=None, temp="case", medium="case", model="ca
     temp = case["temp"] if isinstance(temp, str) else temp
     medium = case["medium"] if medium == "case" else medium
     model = case["model"] if model == "case" else model
-    x_arr = np.array(xs, dtype=float)
-    d_arr = np.array(ds, dtype=float)
-    t_arg = np.array(temp, dtype=float) if isinstance(temp, (list, np.ndarray)) else temp
+    layout = case.get("ev_layout", "1d") if ev_layout is None else ev_layout
+    x_arr, x_base = shape_events(xs, layout)
+    d_arr, d_base = shape_events(ds, layout)
+    t_base = None
+    if isinstance(temp, (list, np.ndarray)):
+        t_arg, t_base = shape_events(temp, layout)
+    else:
+        t_arg = temp
     larg, tup = lut_arg(lut, case)
     kw = {"deform": d_arr, "medium": medium, "channel_width": case["L"] if L is None else L,
           "flow_rate": case["Q"] if Q is None else Q, "px_um": case["px"] if px is None else px,
           "temperature": t_arg, "lut_data": larg, "visc_model": model}
     kw["area_um" if lut.featx == "area_um" else "volume"] = x_arr
-    before = (fp(x_arr), fp(d_arr), fp(t_arg) if isinstance(t_arg, np.ndarray) else None,
+    def fpa(a, b):
+        return (fp(a), fp(b), a.flags.writeable, a.flags.c_contiguous, a.flags.f_contiguous)
+    before = (fpa(x_arr, x_base), fpa(d_arr, d_base),
+              fpa(t_arg, t_base) if isinstance(t_arg, np.ndarray) else None,
               (fp(tup[0]), fp(tup[2]), tup[0].flags.writeable, tup[0].dtype.str) if tup else None,
               copy.deepcopy(tup[1]) if tup else None, dict(load.EXTERNAL_LUTS))
     try:
@@ -632,14 +715,18 @@ def call_impl(lut, case, xs=None, ds=None, temp="case", medium="case", model="ca
             warnings.simplefilter("ignore")
             out = em.get_emodulus(**kw)
         out = np.array(out, dtype=float, copy=True)
+        if out.shape != x_arr.shape:
+            out = f"shape:result of shape {out.shape} for events of shape {x_arr.shape}"
+        else:
+            out = out.reshape(-1)           # logical (C index) order, whatever the layout
     except Exception as e:  # noqa
         out = err_of(e)
     if mutations is not None:
-        if fp(x_arr) != before[0]:
+        if fpa(x_arr, x_base) != before[0]:
             mutations.append("the caller's area_um/volume array was modified")
-        if fp(d_arr) != before[1]:
+        if fpa(d_arr, d_base) != before[1]:
             mutations.append("the caller's deform array was modified")
-        if isinstance(t_arg, np.ndarray) and fp(t_arg) != before[2]:
+        if isinstance(t_arg, np.ndarray) and fpa(t_arg, t_base) != before[2]:
             mutations.append("the caller's temperature array was modified")
         if tup and (fp(tup[0]), fp(tup[2]), tup[0].flags.writeable,
                     tup[0].dtype.str) != before[3]:
@@ -835,7 +922,7 @@ def prepare(lut, case, force64=False):
     L, Q, px = case["L"], case["Q"], case["px"]
     geo = Geo(lut, route, L, Q, eta if route == "A" else None, force64=force64)
     fEs = [(Q / lut.Q0) * (e / lut.eta0) * (lut.L0 / L) ** 3 for e in etas]
-    deltas, expect, near, lines, kinds, slack = [], [], [], [], [], []
+    deltas, expect, near, lines, kinds, slack, mag = [], [], [], [], [], [], []
     near_x, slack_x = [], []          # the same allowances for the comparison with exact
     #                                   arithmetic on the table (wider for float32 arrays)
     for i in range(n):
@@ -843,6 +930,7 @@ def prepare(lut, case, force64=False):
         if not (math.isfinite(x) and math.isfinite(d)):
             deltas.append(0.0)
             expect.append(float("nan"))
+            mag.append(float("nan"))
             near.append(False)
             lines.append(None)
             kinds.append("nonfinite")
@@ -854,6 +942,7 @@ def prepare(lut, case, force64=False):
         if not math.isfinite(dl):       # exp overflow for absurd abscissae: deform - inf
             deltas.append(0.0)
             expect.append(float("nan"))
+            mag.append(float("nan"))
             near.append(False)
             lines.append(None)
             kinds.append("nonfinite")
@@ -885,15 +974,26 @@ def prepare(lut, case, force64=False):
         near.append(abs(dist) < BAND or uncertain)
         near_x.append(abs(dist) < band_x or uncertain or
                       (s >= 0 and geo.minbary_one(s, q) < unc_x * geo.loc_uncertainty(cands)))
-        head = f"q {rat(x)} {rat(d)} {rat(dl)} {rat(etas[i])} "
+        # a missing temperature reading: no viscosity, hence no Young's modulus, for this event
+        # (its geometry - hull band, sliver allowances - is still needed by the laws that
+        # re-evaluate the event with another viscosity source)
+        eta_ok = math.isfinite(etas[i])
+        fE_i = fEs[i] if eta_ok else (Q / lut.Q0) * (lut.L0 / L) ** 3
+        head = f"q {rat(x)} {rat(d)} {rat(dl)} {rat(etas[i]) if eta_ok else 'nan'} "
         if s >= 0:
             val = geo.exact_value(s, q)
-            expect.append(float(val * fEs[i] if route == "B" else val))
-            slack.append(geo.slack(cands) * (abs(fEs[i]) if route == "B" else 1.0))
+            mag.append(float(val * fE_i if route == "B" else val))
+            expect.append(mag[-1] if eta_ok else float("nan"))
+            slack.append(geo.slack(cands) * (abs(fE_i) if route == "B" else 1.0))
         else:
+            mag.append(float("nan"))
             expect.append(float("nan"))
             slack.append(0.0)
         slack_x.append(slack[-1] * unc_x)
+        if not eta_ok:
+            lines.append(None)
+            kinds.append("nonfinite")
+            continue
         if lut.small:
             lines.append(head + "full")
             kinds.append("full")
@@ -921,7 +1021,8 @@ def prepare(lut, case, force64=False):
                 a, b = R[geo.hull[edge, 0], :2], R[geo.hull[edge, 1], :2]
             lines.append(head + f"out {rat(a[0])} {rat(a[1])} {rat(b[0])} {rat(b[1])}")
             kinds.append("out")
-    info.update(geo=geo, etas=etas, deltas=deltas, expect=expect, near=near, lines=lines,
+    info.update(geo=geo, etas=etas, deltas=deltas, expect=expect, expect_mag=mag, near=near,
+                lines=lines,
                 kinds=kinds, slack=slack, near_x=near_x, slack_x=slack_x)
     return info
 
@@ -948,6 +1049,9 @@ def compare_float(case, info, out, lut=None):
             # integer tables cannot be scaled/normalised in place; rejecting them is not a
             # wrong answer ("Cannot correct integer `area_um` in-place!")
             return []
+        if out.startswith("shape:"):
+            return [(-1, f"get_emodulus returned a {out[6:]} "
+                         f"(container {case.get('ev_layout', '1d')})")]
         return [(-1, f"get_emodulus raised {out}")]
     if out.shape != (info["n"],):
         return [(-1, f"result shape {out.shape} for {info['n']} events")]
@@ -959,8 +1063,11 @@ def compare_float(case, info, out, lut=None):
             if near[i] and (math.isnan(e) != math.isnan(o)):
                 continue
             if not close(e, o, slack[i], rtol):
+                tt = (f", temperature={case['temp'][i]!r}" if isinstance(case["temp"], list)
+                      else "") + (f", events passed as {case['ev_layout']}"
+                                  if case.get("ev_layout", "1d") != "1d" else "")
                 res.append((i, f"event {i} ({case['cats'][i]}; x={case['x'][i]!r}, "
-                               f"deform={case['d'][i]!r}): get_emodulus={o!r}, scaled linear "
+                               f"deform={case['d'][i]!r}{tt}): get_emodulus={o!r}, scaled linear "
                                f"interpolation of the LUT={e!r}"
                                + (f" (LUT array dtype {inf['native']})"
                                   if inf["native"] != "float64" else "")))
@@ -997,7 +1104,9 @@ def laws(rng, lut, case, info, base, which=None):
     if isinstance(base, str):
         return bad
     near = np.array(info.get("near_x", []), dtype=bool)
-    slack, expect = info.get("slack_x", []), info.get("expect", [])
+    # magnitudes of the events' values (for an event without temperature reading: the value
+    # it has with the LUT's own viscosity) - used for the allowances only
+    slack, expect = info.get("slack_x", []), info.get("expect_mag", info.get("expect", []))
     rtol = info.get("rtol_exact", RTOL)
 
     def same(a, b, idx=None):
@@ -1064,25 +1173,29 @@ def laws(rng, lut, case, info, base, which=None):
     if "single" in todo and n > 0:
         i = rng.randrange(n)
         t = [case["temp"][i]] if isinstance(case["temp"], list) else case["temp"]
-        o = call_impl(lut, case, xs=[case["x"][i]], ds=[case["d"][i]], temp=t)
+        lay = rng.choice(["1d", "0d"])       # a one-element array or a 0-d scalar
+        o = call_impl(lut, case, xs=[case["x"][i]], ds=[case["d"][i]], temp=t, ev_layout=lay)
         if isinstance(o, str) or not same(o, base[i:i + 1], [i]):
-            bad.append(("single", f"event {i} alone gives a different value than in the batch"))
+            bad.append(("single", f"event {i} alone ({lay}) gives a different value than in "
+                                  f"the batch"))
     if "routes" in todo and isinstance(case["medium"], str) and info["route"] is not None:
         # scalar temperature vs. an array holding the same temperature
+        o_arr = o_sc = base
         if isinstance(case["temp"], list):
-            T = case["temp"][0]
-            o_arr = call_impl(lut, case, temp=[T] * n)
-            o_sc = call_impl(lut, case, temp=T)
+            ft = finite_temps(case["temp"])
+            if ft:
+                o_arr = call_impl(lut, case, temp=[ft[0]] * n)
+                o_sc = call_impl(lut, case, temp=ft[0])
         else:
-            o_sc = base
             o_arr = call_impl(lut, case, temp=[case["temp"]] * n)
         if not same(o_arr, o_sc):
             bad.append(("routes", "per-event temperature array and scalar temperature disagree"))
     if "outlier" in todo and isinstance(case["temp"], list) and n > 0 \
-            and isinstance(case["medium"], str):
+            and isinstance(case["medium"], str) and finite_temps(case["temp"]):
         # batch composition: one more event at a clearly different temperature (and, the other
         # way round, the batch without its most deviating event) must not change the others
-        tm = sum(case["temp"]) / n
+        ft = finite_temps(case["temp"])
+        tm = sum(ft) / len(ft)
         t_out = tm + 7.0 if tm < 30 else tm - 7.0
         o = call_impl(lut, case, xs=case["x"] + [case["x"][0]], ds=case["d"] + [case["d"][0]],
                       temp=case["temp"] + [t_out])
@@ -1090,7 +1203,8 @@ def laws(rng, lut, case, info, base, which=None):
             bad.append(("outlier", f"appending one event at {t_out:.2f} degC changes the "
                                    f"results of the other events"))
         if n > 2:
-            j = max(range(n), key=lambda i: abs(case["temp"][i] - tm))
+            j = max(range(n), key=lambda i: abs(case["temp"][i] - tm)
+                    if math.isfinite(case["temp"][i]) else -1.0)
             keep = [i for i in range(n) if i != j]
             o = call_impl(lut, case, xs=[case["x"][i] for i in keep],
                           ds=[case["d"][i] for i in keep], temp=[case["temp"][i] for i in keep])
@@ -1590,6 +1704,179 @@ def run_histories(ctx, n_hist):
     return entries, env_lines
 
 
+# ------------------------------------------------------------------------------------------
+# memory model: scale_* with inplace on/off, get_emodulus(copy) (Model/EmodMem.lean)
+MEM_FEATS = ["area_um", "volume", "emodulus", "deform", "circ", "area_um", "emodulus", "bogus"]
+MEM_DT = {"float64": "f64", "float32": "f32", "int64": "int", "int32": "int"}
+
+
+def gen_mem_case(rng):
+    ft = rng.choice(MEM_FEATS)
+    dt = rng.choice(["float64", "float64", "float32", "int64", "int32"])
+    n = rng.randint(1, 6)
+    vals = [float(rng.randint(1, 400)) if (dt.startswith("int") or rng.random() < 0.3)
+            else float(np.float32(rng.uniform(0.01, 400))) for _ in range(n)]
+    Lin = rng.choice([15.0, 20.0, 30.0, 40.0])
+    Lout = Lin if rng.random() < 0.35 else rng.choice([10.0, 20.0, 25.0, 30.0])
+    Qin = rng.choice([0.04, 0.16])
+    Qout = Qin if rng.random() < 0.5 else rng.choice([0.04, 0.08, 0.32])
+    ein = rng.choice([15.0, 6.0, 1.0])
+    if rng.random() < 0.35:
+        eout = [round(rng.uniform(0.5, 20), 3) for _ in range(n)]
+    else:
+        eout = ein if rng.random() < 0.5 else round(rng.uniform(0.5, 20), 3)
+    return {"feat": ft, "dtype": dt, "vals": vals, "Lin": Lin, "Lout": Lout, "Qin": Qin,
+            "Qout": Qout, "ein": ein, "eout": eout, "inplace": rng.random() < 0.5,
+            "direct": rng.random() < 0.4}
+
+
+def mem_law(c):
+    """the documented scaling law, element-wise (None: unknown feature)"""
+    ft, v = c["feat"], c["vals"]
+    if ft in ("area_um", "volume"):
+        k = 2 if ft == "area_um" else 3
+        return [x * (c["Lout"] / c["Lin"]) ** k if c["Lin"] != c["Lout"] else x for x in v]
+    if ft == "emodulus":
+        es = c["eout"] if isinstance(c["eout"], list) else [c["eout"]] * len(v)
+        if c["Qin"] == c["Qout"] and c["Lin"] == c["Lout"] and not isinstance(c["eout"], list) \
+                and c["ein"] == c["eout"]:
+            return list(v)
+        return [x * (c["Qout"] / c["Qin"]) * (e / c["ein"]) * (c["Lin"] / c["Lout"]) ** 3
+                for x, e in zip(v, es)]
+    if ft in ("deform", "circ"):
+        return list(v)
+    return None
+
+
+def run_mem_case(c):
+    """real scale_feature (or the scale_* function itself) on a fresh array; returns
+    (canonical observation in the model's answer format with float lists, spec complaint)"""
+    from dclab.features.emodulus import scale_linear as sl
+    arr = np.array(c["vals"], dtype=c["dtype"])
+    orig = arr.copy()
+    eout = np.array(c["eout"], dtype=float) if isinstance(c["eout"], list) else c["eout"]
+    kw = {"channel_width_in": c["Lin"], "channel_width_out": c["Lout"], "flow_rate_in": c["Qin"],
+          "flow_rate_out": c["Qout"], "viscosity_in": c["ein"], "viscosity_out": eout}
+    try:
+        with warnings.catch_warnings():
+            warnings.simplefilter("ignore")
+            fn = {"area_um": getattr(sl, "scale_area_um", None),
+                  "volume": getattr(sl, "scale_volume", None),
+                  "emodulus": getattr(sl, "scale_emodulus", None)}.get(c["feat"])
+            if c["direct"] and fn is not None:
+                key = {"area_um": "area_um", "volume": "volume", "emodulus": "emodulus"}[c["feat"]]
+                if c["feat"] != "emodulus":
+                    kw = {k: kw[k] for k in ("channel_width_in", "channel_width_out")}
+                out = fn(**{key: arr}, inplace=c["inplace"], **kw)
+            else:
+                out = sl.scale_feature(feat=c["feat"], data=arr, inplace=c["inplace"], **kw)
+    except Exception as e:  # noqa
+        obs = err_of(e)
+        spec = None
+        if not np.array_equal(arr, orig) and not c["inplace"]:
+            spec = "the caller's array was modified although the call raised"
+        return obs, spec
+    out = np.asarray(out)
+    same = out is arr or bool(np.shares_memory(out, arr))
+    obs = ("ok", "same" if same else "new", MEM_DT.get(out.dtype.name, out.dtype.name),
+           [float(v) for v in out.ravel()], [float(v) for v in arr.ravel()])
+    spec = None
+    law = mem_law(c)
+    tol = 1e-6 if c["dtype"] == "float32" else 1e-12
+    if not c["inplace"] and not (np.array_equal(arr, orig) and arr.dtype == orig.dtype):
+        spec = f"inplace=False modified the caller's array ({orig.tolist()} -> {arr.tolist()})"
+    elif not c["inplace"] and same:
+        spec = "inplace=False returned (a view of) the caller's array"
+    elif law is not None and (len(law) != out.size or not all(
+            abs(a - b) <= tol * max(abs(a), abs(b)) for a, b in zip(law, obs[3]))):
+        spec = f"returned {obs[3]}, the documented scaling law gives {law}"
+    return obs, spec
+
+
+def mem_line(c):
+    es = c["eout"] if isinstance(c["eout"], list) else [c["eout"]]
+    return (f"mem scale {c['feat']} {MEM_DT[c['dtype']]} {int(c['inplace'])} {rat(c['Lin'])} "
+            f"{rat(c['Lout'])} {rat(c['Qin'])} {rat(c['Qout'])} {rat(c['ein'])} "
+            f"{'a' if isinstance(c['eout'], list) else 's'} {len(c['vals'])} "
+            + " ".join(rat(v) for v in c["vals"] + es))
+
+
+def mem_answer_matches(c, obs, ans):
+    """model answer vs observation (values at the resolution of the dtype)"""
+    if isinstance(obs, str):
+        return ans == obs
+    w = ans.split()
+    if len(w) != 5 or w[0] != "ok" or w[1] != obs[1] or w[2] != obs[2]:
+        return False
+    tol = 1e-6 if c["dtype"] == "float32" else 1e-12
+
+    def vals(t):
+        return [] if t == "-" else [frac_to_float(x) for x in t.split(",")]
+    for model, real in ((vals(w[3]), obs[3]), (vals(w[4]), obs[4])):
+        if len(model) != len(real) or not all(
+                abs(a - b) <= tol * max(abs(a), abs(b)) for a, b in zip(model, real)):
+            return False
+    return True
+
+
+def check_memory(ctx):
+    """scale_* against the documented law and the ownership rules; returns the entries for the
+    model [(line, case, observation)]"""
+    entries = []
+    for _ in range(ctx.n(80, 600)):
+        c = gen_mem_case(ctx.rng)
+        try:
+            obs, spec = run_mem_case(c)
+        except Exception as e:  # noqa  (an API that is not there any more: skip, note)
+            ctx.stat("mem_skipped_" + type(e).__name__)
+            continue
+        ctx.stat("mem_scale_cases")
+        ctx.stat(f"mem_{c['feat']}_{MEM_DT[c['dtype']]}_{'inplace' if c['inplace'] else 'copy'}")
+        ctx.stat("mem_result=" + (obs if isinstance(obs, str) else obs[1]))
+        if spec:
+            ctx.violation("spec", f"scale_feature({c['feat']!r}, {c['dtype']} array "
+                                  f"{c['vals']}, inplace={c['inplace']}, L {c['Lin']}->"
+                                  f"{c['Lout']}): {spec}", {"memory": c})
+            continue
+        entries.append((mem_line(c), c, obs))
+    return entries
+
+
+def observe_copy_flag(ctx, lut):
+    """which of the caller's arrays get_emodulus overwrites, per (copy, px, route): returns
+    [(model line, observed refs or None)].  copy=True is the property (also covered by the
+    fingerprints of every case); copy=False is outside the property: its comparison with the
+    model is recorded as a NOTE only."""
+    from dclab.features import emodulus as em
+    out = []
+    tri, rows = lut.tri0, lut.rows
+    pts = [rows[s, :2].mean(0) for s in tri.simplices[:4]]
+    for cp in (True, False):
+        for px in (True, False):
+            for rb in (True, False):
+                x = np.array([p[0] for p in pts], dtype=float)
+                d = np.array([p[1] for p in pts], dtype=float) + 0.004
+                la = np.array(rows, dtype=float)
+                x0, d0, l0 = x.copy(), d.copy(), la.copy()
+                kw = {"area_um" if lut.featx == "area_um" else "volume": x}
+                try:
+                    with warnings.catch_warnings():
+                        warnings.simplefilter("ignore")
+                        em.get_emodulus(deform=d, medium="CellCarrier" if rb else 7.5,
+                                        channel_width=lut.L0 * 1.5, flow_rate=0.08,
+                                        px_um=0.34 if px else 0,
+                                        temperature=np.full(len(x), 23.5) if rb else None,
+                                        lut_data=(la, lut.meta_tuple()),
+                                        visc_model="buyukurganci-2022" if rb else None,
+                                        copy=cp, **kw)
+                    refs = [i for i, (a, b) in enumerate([(x, x0), (d, d0), (la, l0)])
+                            if not np.array_equal(a, b, equal_nan=True)]
+                except Exception:  # noqa
+                    refs = None
+                out.append((f"mem prog {int(cp)} {int(px)} {int(rb)}", cp, refs))
+    return out
+
+
 def make_luts(ctx, n_user):
     luts = [Lut({"kind": "builtin", "name": nm}, ctx.workdir) for nm in BUILTIN]
     for j in range(n_user):
@@ -1628,6 +1915,12 @@ def _run(ctx):
         return (quick if ctx.tier == "quick" else thorough) * (1 if ctx.lean_ok else 3)
     luts = make_luts(ctx, nn(8, 60))
     check_loading(ctx, luts)
+    mem_entries = check_memory(ctx)
+    try:
+        prog_entries = observe_copy_flag(ctx, luts[3])
+    except Exception as e:  # noqa
+        prog_entries = []
+        ctx.stat("mem_prog_skipped_" + type(e).__name__)
     corpus = common.VERIF / "corpus" / "C05"
     cases = []      # (lut, case)
     if corpus.exists():
@@ -1683,11 +1976,15 @@ def _run(ctx):
         ctx.stat("visc=" + ("numeric" if not isinstance(case["medium"], str) else
                             ("array" if isinstance(case["temp"], list) else "scalar")))
         if isinstance(case["temp"], list) and case["temp"]:
-            sp = max(case["temp"]) - min(case["temp"])
+            ft = finite_temps(case["temp"]) or [0.0]
+            sp = max(ft) - min(ft)
+            if len(ft) < len(case["temp"]):
+                ctx.stat("temp_with_missing_readings")
             ctx.stat("temp_spread=" + ("0" if sp == 0 else "<1e-3" if sp < 1e-3 else
                                        "<0.5" if sp < 0.5 else ">=0.5"))
         for b in lut.spec.get("boundary") or []:
             ctx.stat("lut_boundary_" + b)
+        ctx.stat("events_as=" + case.get("ev_layout", "1d"))
         if not case["px"]:
             ctx.stat("px=0")
         if isinstance(out, str):
@@ -1745,6 +2042,8 @@ def _run(ctx):
     t0 = time.time()
     env_start = len(lean_lines)
     lean_lines += [ln for ln, _exp in env_lines]
+    mem_start = len(lean_lines)
+    lean_lines += [ln for ln, _c, _o in mem_entries] + [ln for ln, _cp, _r in prog_entries]
     ans = ctx.lean("C05", ["selftest-noop"] + lean_lines)[1:]
     ctx.stat("model_lines", len(lean_lines))
     ctx.stat("model_seconds", int(round(time.time() - t0)))
@@ -1754,6 +2053,27 @@ def _run(ctx):
         if exp is not None and ans[env_start + k] != exp:
             mirror_bad.append((0, -1, f"LUT environment model: '{ln}' answered "
                                       f"'{ans[env_start + k]}', the harness's shadow '{exp}'"))
+    mem_bad = []
+    for k, (ln, c, obs) in enumerate(mem_entries):
+        ctx.stat("model_mem_scale")
+        if not mem_answer_matches(c, obs, ans[mem_start + k]):
+            mem_bad.append(f"scale_feature memory model: '{ln[:120]}' answered "
+                           f"'{ans[mem_start + k][:120]}', the implementation {obs}")
+    for k, (ln, cp, refs) in enumerate(prog_entries):
+        a = ans[mem_start + len(mem_entries) + k].split()
+        model_refs = [] if len(a) < 2 or a[1] == "-" else sorted(int(v) for v in a[1].split(","))
+        if refs is None:
+            ctx.stat("mem_prog_call_failed")
+        elif cp:
+            ctx.stat("model_mem_prog_copy_true")
+            if a[:1] != ["owned"] or model_refs or refs:
+                mem_bad.append(f"get_emodulus(copy=True) memory model: '{ln}' answered "
+                               f"'{' '.join(a)}', the implementation overwrote caller arrays "
+                               f"{refs}")
+        else:
+            # copy=False is outside the property: NOTE only
+            ctx.stat("note_copy_false_model_" + ("agrees" if sorted(refs) == model_refs
+                                                 else "differs"))
     for (ci, start, pre, qpos, bpos) in spans:
         lut, case = cases[ci][0], cases[ci][1]
         info, out, _ = results[ci]
@@ -1796,6 +2116,23 @@ def _run(ctx):
             if got != single:
                 mirror_bad.append((ci, -1, "model: batch computation differs from event-wise "
                                            "computation"))
+    if mem_bad and not mirror_bad:
+        n_before = len(ctx.violations)
+        for _ in range(ctx.n(400, 2000)):       # failing-input search on the implementation
+            c = gen_mem_case(ctx.rng)
+            try:
+                _obs, spec = run_mem_case(c)
+            except Exception:  # noqa
+                continue
+            if spec:
+                ctx.violation("spec", f"scale_feature({c['feat']!r}, {c['dtype']}, inplace="
+                                      f"{c['inplace']}): {spec}", {"memory": c})
+                break
+        if len(ctx.violations) == n_before:
+            ctx.violation("mirror", f"{len(mem_bad)} disagreements, first: {mem_bad[0]}",
+                          {"correspondence": "Drive/C05.lean `mem` vs scale_linear.py / "
+                                             "get_emodulus(copy)", "memory": mem_entries[0][1]})
+        return
     if mirror_bad:
         # the float oracle agreed with the implementation on these cases, the exact model does
         # not: search for an input where the implementation contradicts the property
@@ -1832,6 +2169,15 @@ def replay(ctx, data):
             ctx.rng.seed(0)
             check_formulas(ctx)
             return len(ctx.violations) > n0
+        if "memory" in rp:
+            obs, spec = run_mem_case(rp["memory"])
+            print("observed:", obs, "| complaint:", spec)
+            print("model line:", mem_line(rp["memory"]))
+            if spec is None and ctx.lean_ok:
+                a = ctx.lean("C05", [mem_line(rp["memory"])])[0]
+                print("model:", a)
+                return not mem_answer_matches(rp["memory"], obs, a)
+            return bool(spec)
         if "loading" in rp:
             lut = Lut(rp["loading"], ctx.workdir)
             n0 = len(ctx.violations)
